@@ -50,7 +50,8 @@ E0 = 150e9
 H1D, HAXI, HPE, HGPE, HPS, H3D = ("AxisymmetricalGeneralisedPlaneStrain", "Axisymmetrical", "PlaneStrain",
                                   "GeneralisedPlaneStrain", "PlaneStress", "Tridimensional")
 ALLH = [H1D, HAXI, HPE, HGPE, HPS, H3D]
-TOL_STATE = 1.0e-8   # relative, see calibration in mutants/C44.md
+TOL_STATE = 1.0e-7   # relative; worst observed over 10 seeds 3.2e-10 (see mutants/C44.md)
+TOL_PS = 1.0e-6      # plane stress vs 3D (the axial strain is itself a converged unknown): worst observed 6e-9
 TOL_K = 1.0e-6
 TOL_ROT = 1.0e-12
 
@@ -278,6 +279,14 @@ class Cmp:
             self.bad = (what, "%s: |a-b|/scale = %.3g > %.1g (entry %d: %.12g vs %.12g, scale %.3g)" % (what, e, tol, k, a.flat[k], b.flat[k], scale))
 
 
+def loaded(steps, k):
+    """False for a step without strain increment: after a plastic step the state sits on the yield surface and the
+    elastic/plastic status of such a step (hence the tangent operator, which is discontinuous there) is decided by
+    round-off.  The tangent operators of those steps are not compared (states are)."""
+    prev = steps[k - 1][0] if k > 0 else 0 * steps[0][0]
+    return float(np.max(np.abs(steps[k][0] - prev))) > 1.0e-8
+
+
 def scales(res_list, steps):
     s = max([float(np.max(np.abs(r["sig"]))) for r in res_list] + [1.0])
     emax = max(float(np.max(np.abs(e))) for e, _ in steps)
@@ -305,7 +314,7 @@ def compare_embedded(c, tag, lib, hs, hb, rs, rb, idx, steps, with_K=True):
                 c.close(tag + ".isv_tensor", a["iv"][o_s:o_s + sz], vb[idx], sc, TOL_STATE)
                 if other:
                     c.close(tag + ".isv_tensor_out_of_subspace", vb[other], 0 * vb[other], sc, TOL_STATE)
-        if with_K:
+        if with_K and loaded(steps, k):
             Ks = max(float(np.max(np.abs(a["K"]))), float(np.max(np.abs(b["K"]))), 1.0)
             c.close(tag + ".K", a["K"], b["K"][np.ix_(idx, idx)], Ks, TOL_K)
 
@@ -405,15 +414,15 @@ def check_pstress(case):
         if b["r"] < 0:
             break
         S, Se = scales([a, b], steps)
-        c.close("C44.pstress.stress_vs_3d", a["sig"], b["sig"][idx], S, TOL_STATE)
-        c.close("C44.pstress.stress_vs_3d_out_of_plane", b["sig"][other], 0 * b["sig"][other], S, TOL_STATE)
+        c.close("C44.pstress.stress_vs_3d", a["sig"], b["sig"][idx], S, TOL_PS)
+        c.close("C44.pstress.stress_vs_3d_out_of_plane", b["sig"][other], 0 * b["sig"][other], S, TOL_PS)
         for nme, t, o_s, o_b, sz in isv_map(lib, HPS, H3D, idx):
             if t == 0:
                 sc = max(Se, abs(a["iv"][o_s]))
-                c.close("C44.pstress.isv_scalar", [a["iv"][o_s]], [b["iv"][o_b]], sc, TOL_STATE)
+                c.close("C44.pstress.isv_scalar", [a["iv"][o_s]], [b["iv"][o_b]], sc, TOL_PS)
             elif t == 1:
                 vb = b["iv"][o_b:o_b + 6]
-                c.close("C44.pstress.isv_tensor", a["iv"][o_s:o_s + sz], vb[idx], max(Se, float(np.max(np.abs(vb)))), TOL_STATE)
+                c.close("C44.pstress.isv_tensor", a["iv"][o_s:o_s + sz], vb[idx], max(Se, float(np.max(np.abs(vb)))), TOL_PS)
     nt = inelastic(lib, HPS, rs[:nconv]) or case["prog"] == "C44Elastic"
     return finish(c, nconv, nt, ["prog." + case["prog"]], "C44")
 
@@ -435,7 +444,7 @@ def check_rot_iso(case):
     if nconv == 0:
         raise Reject()
     c = Cmp()
-    for a, b in zip(ra[:nconv], rb[:nconv]):
+    for k, (a, b) in enumerate(zip(ra[:nconv], rb[:nconv])):
         S, Se = scales([a, b], steps)
         c.close("C44.rot.stress", M @ a["sig"], b["sig"], S, TOL_STATE)
         for nme, t, o, sz in tensor_isvs(lib, H3D):
@@ -444,8 +453,9 @@ def check_rot_iso(case):
             elif t == 1:
                 va = a["iv"][o:o + 6]
                 c.close("C44.rot.isv_tensor", M @ va, b["iv"][o:o + 6], max(Se, float(np.max(np.abs(va)))), TOL_STATE)
-        Ks = max(float(np.max(np.abs(a["K"]))), 1.0)
-        c.close("C44.rot.K", M @ a["K"] @ M.T, b["K"], Ks, TOL_K)
+        if loaded(steps, k):
+            Ks = max(float(np.max(np.abs(a["K"]))), 1.0)
+            c.close("C44.rot.K", M @ a["K"] @ M.T, b["K"], Ks, TOL_K)
     ang = float(np.linalg.norm(case["rot"]))
     aligned = min(abs(math.sin(2 * ang)), 1.0) < 1e-3 or sum(1 for x in case["rot"] if abs(x) > 1e-3) < 1
     nt = (inelastic(lib, H3D, ra[:nconv]) or case["prog"] == "C44Elastic") and not aligned
